@@ -8,3 +8,5 @@ from . import structural  # noqa: F401
 from . import rule_analysis  # noqa: F401
 from . import file_discovery  # noqa: F401
 from . import configuration  # noqa: F401
+from . import primitives  # noqa: F401
+from . import pragmas  # noqa: F401
